@@ -30,4 +30,26 @@ def jobs(seed=0):
                          cbmc_flags=["--unwind", str(2 * mm + 3), "--unwinding-assertions", "--object-bits", "10"],
                          functions=["reim4_from_cplx_" + nm, "reim4_to_cplx_" + nm, "init_reim4_from_cplx_precomp", "init_reim4_to_cplx_precomp"],
                          timeout=900, bound_note="m=%d complex numbers, all data" % mm))
+    # fftvec_jobs() (contracts/fftvec.c) are NOT registered: every run timed out on both SAT back ends -- equality of two
+    # IEEE-754 multiplier circuits, even at m=1 (DESIGN 5/C17, 5/C13: pointwise products not covered)
+    return J
+
+
+def fftvec_jobs():
+    J = []
+    V = [(0, "reim_ref", ["reim/reim_fftvec_addmul_ref.c"], ["reim_fftvec_mul_ref", "reim_fftvec_addmul_ref"], (1, 2, 4)),
+         (1, "reim_fma", ["reim/reim_fftvec_addmul_fma.c"], ["reim_fftvec_mul_fma", "reim_fftvec_addmul_fma"], (4, 8)),
+         (2, "cplx_ref", ["cplx/cplx_fftvec_ref.c"], ["cplx_fftvec_mul_ref", "cplx_fftvec_addmul_ref"], (1, 2, 4)),
+         (3, "reim4_ref", ["reim4/reim4_fftvec_addmul_ref.c"], ["reim4_fftvec_mul_ref", "reim4_fftvec_addmul_ref"], (4, 8)),
+         (4, "reim4_fma", ["reim4/reim4_fftvec_addmul_fma.c"], ["reim4_fftvec_mul_fma", "reim4_fftvec_addmul_fma"], (4, 8))]
+    for fv, nm, srcs, fns, ms in V:
+        for m in ms:
+            for acc in (0, 1):
+                for alias in (1, 2):
+                    J.append(Job(name="fftvec.%s.%s.m%d.al%d" % (nm, "addmul" if acc else "mul", m, alias), props=["C13", "C17", "C15"], shape="S4",
+                                 sources=srcs + (["commons_private.c", "commons.c"] if "ref" in nm else []), harness="fftvec.c", entry="h_fftvec", no_dfcc=True,
+                                 defines={"M": m, "FV": fv, "ALIAS": alias, "ACC": acc},
+                                 cbmc_flags=["--unwind", str(2 * m + 3), "--unwinding-assertions", "--object-bits", "10"], functions=[fns[acc]],
+                                 timeout=900, solver="race", tier="quick" if m <= 4 else "thorough",
+                                 bound_note="complex dimension m=%d, every operand value, aliasing r==%s" % (m, "a" if alias == 1 else "b")))
     return J
